@@ -30,6 +30,7 @@ def seq_case(item):
     spec, steps = item
     bt = rt.bt()
     ledger.install_trade_spy()
+    ledger.install_alloc_spy()
     fee = T.fee_fn(spec.get("fee"))
     spread = spec.get("spread")
     integer = spec.get("integer", True)
@@ -58,7 +59,9 @@ def seq_case(item):
             if cash is not None:
                 temp["cash"] = cash
             ledger.clear_trades()
+            ledger.take_allocs()
             t.apply(["algos", [], temp, "Rebalance"])
+            allocs = ledger.take_allocs(root)
             after = T.snapshot(t)
             trades = ledger.trade_costs(t, ledger.trades_of(t))
         except Exception as e:
@@ -76,6 +79,11 @@ def seq_case(item):
             k = after[cname]["name"]
             node = after[cname]
             if k in tw and tw[k] != 0.0:
+                # "any sane cost model": commission and half-spread below the unit price, for every
+                # security that has to trade to reach this target
+                leaves = [x for x in after["__order__"] if (x == cname or x.startswith(cname + ">")) and after[x]["kind"] == "X"]
+                if any(not ref.fee_in_domain(after[x]["price"], after[x]["mult"], spread, fee) for x in leaves):
+                    continue
                 tgt = (1.0 - c) * tw[k] * base
                 below = [x for x in trades if x["sec"] == cname or x["sec"].startswith(cname + ">")]
                 own = sum(abs(x["fee"]) + abs(x["friction"]) for x in below)
@@ -93,7 +101,16 @@ def seq_case(item):
                                 tol += unit_cost(after[x]["price"], after[x]["mult"], spread, fee, 0)
                 tol += 1e-9 * scale
                 if abs(node["value"] - tgt) > tol:
-                    viols.append({"rule": "target_value", "expected": {"child": k, "target_value": tgt, "tolerance": tol, "base": base, "cash": cash, "weights": tw}, "observed": node["value"], "where": si})
+                    # was the miss produced by the sizing search itself (the known C05 defect)?  Each
+                    # allocate request made below this child is re-decided by the brute-force reference
+                    sig = None
+                    if integer:
+                        for a in allocs:
+                            if (a["name"] == cname or a["name"].startswith(cname + ">")) and a["integer"] and abs(a["amount"] + a["value0"]) > 1e-9 and ref.fee_in_domain(a["price"], a["mult"], a["spread"], fee):
+                                qstar = ref.largest_affordable(a["amount"], a["price"], a["mult"], a["spread"], fee)
+                                if qstar is not None and a["pos1"] - a["pos0"] != qstar:
+                                    sig = "target_missed|allocate_traded_other_than_largest_affordable"
+                    viols.append({"rule": "target_value", "sig": sig, "expected": {"child": k, "target_value": tgt, "tolerance": tol, "base": base, "cash": cash, "weights": tw}, "observed": node["value"], "where": si})
             else:
                 # not targeted (or target 0): closed, whole subtree
                 for x in after["__order__"]:
@@ -195,6 +212,7 @@ def run(ctx):
     ctx.assumptions += [
         "tolerance: the child's own trade costs (+ one more unit incl. that unit's half-spread and commission with integer positions); fractional and cost-free: 1e-9 relative",
         "base = strategy value read immediately before the algo",
+        "sane cost model: a target is judged only where commission + half spread of one unit is below the unit price (same domain as C05)",
         "sequences that end in a documented guard (e.g. the known sizing guards, C05) are refused transitions",
     ]
     kinds = ["py"] if ctx.tier == "quick" else ["py", "cy"]
